@@ -15,9 +15,11 @@ def check(tree, rep, tier='quick', seed=0):
     core = get_core(tree)
     R.k17_prompt_demand(core, rep)
     R.k29_prompt_quotes_the_waiters(core, rep)
+    R.k17b_validation_on_demand(core, rep)
     R.k10_refusal(core, rep)
     R.k2_signal_discipline(core, rep)
     R.k8_input_store_writes(core, rep)
     R.k11_input_gate(core, rep)
     R.k18_cli_store_identity(core, rep)
+    R.k11g_parser_objects_untouched(core, rep)
     rep.floor('core rule obligations', sum(v[0] for k, v in rep.rules.items() if k.startswith('K')), 60)
